@@ -141,13 +141,29 @@ Theorem C15_same_tree_none : forall t al,
 Proof. exact same_tree_none. Qed.
 Print Assumptions C15_same_tree_none.
 
-(* ---- the hypotheses are satisfiable by non-trivial inputs; the model on the three pre-F6 witnesses --- *)
-
 Definition s_r : str := [114%N].                    (* "r"  *)
 Definition s_b : str := [98%N].                     (* "b"  *)
 Definition s_bc : str := [98; 99]%N.                (* "bc" *)
 Definition s_x : str := [120%N].                    (* attribute "x" *)
 Definition leaf (n : str) (a : attrs) : tree := T None n a [].
+
+(* The second tree may use another separator (get_tree_diff_seps sep sep2): the answer does not depend
+   on it - in particular separator characters of the second tree inside node names are left alone - and
+   equals get_tree_diff sep, about which all clauses above speak. *)
+Theorem C15_other_sep_irrelevant : forall sep s s' t1 t2 od al,
+  get_tree_diff_seps sep s t1 t2 od al = get_tree_diff_seps sep s' t1 t2 od al
+  /\ get_tree_diff_seps sep s t1 t2 od al = get_tree_diff sep t1 t2 od al.
+Proof. intros. split; [apply other_sep_irrelevant|apply get_tree_diff_seps_eq]. Qed.
+Print Assumptions C15_other_sep_irrelevant.
+
+(* the second tree uses "-" and both trees contain the node "v-s": no diff *)
+Example C15_other_sep_instance :
+  let t := T None s_r [] [leaf [118; 45; 115]%N []; leaf s_b []] in
+  domain_C15 slash t t [] = true /\ lookalike_free t t = true /\
+  get_tree_diff_seps slash [45%N] t t true [] = Ret None.
+Proof. vm_compute. repeat split. Qed.
+
+(* ---- the hypotheses are satisfiable by non-trivial inputs; the model on the three pre-F6 witnesses --- *)
 
 (* removed b next to common bc (only the b component is marked); a changed attribute; an added node *)
 Example C15_nontrivial_instance :
